@@ -1364,7 +1364,7 @@ func sameRaw(a, b map[string][]shardkit.Val) bool {
 func CheckCrashRecovery(dir string, o Options, ops []string, n int, infl string) (co CrashObs) {
 	before := ModelOf(ops[:n])
 	after := before
-	if _, isOp := map[string]bool{"": false, "open": false}[infl]; !isOp {
+	if infl != "" && infl != "open" {
 		after = ModelOf(ops[:n+1])
 	}
 	fail := func(stage, clause, why string) CrashObs {
